@@ -98,16 +98,53 @@ def job(args):
         res['inlined'] = sorted(w.inlined_log)
         timeout = 10000 if tier == 'quick' else 60000
         seen = {}
+        # reachability clauses: satisfiable on at least one path, else the proof may be vacuous
+        reach = {}
+        for o in obls:
+            if o.kind == 'reach':
+                reach.setdefault(o.name, []).append(o)
+        obls = [o for o in obls if o.kind != 'reach']
+        for rname, cands in reach.items():
+            t1 = time.time()
+            status = 'unreached'
+            for o in cands:
+                # the quantified facts of a path condition are summaries / well-formedness axioms; satisfiability of the
+                # rest is what the guard looks at (a guard against vacuity, not a proof obligation)
+                s_ = z3.Solver()
+                s_.set('timeout', 3000)
+                for f_ in o.pc:
+                    if not vc._has_quant(f_):
+                        s_.add(f_)
+                s_.add(o.goal)
+                r_ = s_.check()
+                if r_ == z3.sat:
+                    status = 'discharged'
+                    break
+                if r_ == z3.unknown and status == 'unreached':
+                    status = 'reach-unknown'
+            res['obligations'].append({'name': rname, 'path': '*', 'kind': 'reach', 'status': 'discharged' if status == 'discharged' else 'unknown',
+                                       'solver': 'z3-' + z3.get_version_string(), 'time': round(time.time() - t1, 4),
+                                       'note': '' if status == 'discharged' else f'reachability condition {status} on {len(cands)} paths (vacuity guard)',
+                                       'line': 0, 'formula': None})
+        for rname in (c.get('reach') or {}) if case == 'contract' else ():
+            if not any(k.endswith('/reach.' + rname) for k in reach):
+                res['obligations'].append({'name': f'{key}/reach.{rname}', 'path': '*', 'kind': 'reach', 'status': 'unknown', 'solver': None, 'time': 0,
+                                           'note': 'no path ends in the outcome this reachability condition is stated for (vacuity guard)',
+                                           'line': 0, 'formula': None})
         for o in obls:
             ident = (o.name, hashlib.sha1((str([p.get_id() for p in o.pc]) + str(o.goal.get_id())).encode()).hexdigest())
             if ident in seen:
                 continue
             seen[ident] = o
-            vc.solve_obligation(o, timeout)
-            if o.status == 'unknown':
+            n_unknown = sum(1 for d_ in res['obligations'] if d_['status'] == 'unknown')
+            # after several undecided obligations of one function the remaining ones get a short budget
+            # (a changed function typically makes many clauses hard at once; the verdict needs only one)
+            budget = timeout if n_unknown < 4 else min(timeout, 3000)
+            vc.solve_obligation(o, budget)
+            if o.status == 'unknown' and n_unknown < 4:
                 vc.cvc5_retry(o, 20 if tier == 'quick' else 120)
             cand = None
-            if o.status == 'unknown' and o.kind == 'post':
+            if o.status == 'unknown' and o.kind == 'post' and n_unknown < 6:
                 # candidate counterexample from the quantifier-free relaxation: believed only if the real code confirms it
                 model = vc.candidate_model(o, timeout)
                 if model is not None:
@@ -137,8 +174,10 @@ def job(args):
             o = next(iter(seen.values()))
             res['sample_formula'] = (str(z3.And(*o.pc))[:600] + ' ==> ' + str(o.goal)[:400]) if o.pc else str(o.goal)[:600]
     except JobTimeout:
-        res['unsupported'] = f'exploration/solving exceeded {JOB_TIMEOUT_S[tier]} s'
-        res['obligations'] = []
+        # keep what was decided so far; the rest of this function stays undecided
+        res['obligations'].append({'name': f'{key}/watchdog', 'path': '*', 'kind': 'post', 'status': 'unknown', 'solver': None, 'time': 0,
+                                   'note': f'exploration/solving exceeded {JOB_TIMEOUT_S[tier]} s; remaining obligations not attempted',
+                                   'line': 0, 'formula': None})
     except Exception as e:     # checker failure, never a verdict
         res['error'] = f'{type(e).__name__}: {e}\n{traceback.format_exc()[-2000:]}'
     finally:
